@@ -476,12 +476,16 @@ async fn main() {
                 continue;
             }
         };
-        for variant in ["strip-all-txs", "strip-all-but-first"] {
+        for variant in ["strip-all-txs", "strip-all-but-first", "flip-timestamp-keep-sig", "replace-creator-keep-sig"] {
             let mut edited = genesis.clone();
             edited.in_longest_chain = false;
             match variant {
                 "strip-all-txs" => edited.transactions.clear(),
-                _ => edited.transactions.truncate(1),
+                "strip-all-but-first" => edited.transactions.truncate(1),
+                // a block without an indexed parent (first block of a fresh node, start of a
+                // mid-chain sync) must still be signed by its stated creator
+                "flip-timestamp-keep-sig" => edited.timestamp += 1,
+                _ => edited.creator = keypair(7).0,
             }
             let _ = edited.generate();
             let same_hash = edited.hash == genesis.hash;
@@ -508,10 +512,11 @@ async fn main() {
                 Ok(AddClass::OnChain) => summary.oracle_failure(
                     case_no,
                     &format!(
-                        "[genesis-{}] first block with {} of its {} transactions removed was accepted under the original hash ({})",
+                        "[genesis-{}] edited first block accepted by a fresh node ({} of {} transactions removed, creator signature valid: {}, same hash as the original: {})",
                         variant,
                         genesis.transactions.len() - edited.transactions.len(),
                         genesis.transactions.len(),
+                        sig_ok,
                         same_hash
                     ),
                     &desc,
